@@ -197,7 +197,7 @@ contract(
          f"opt_collective_saving == CG(opt_start) + {PSc('opt_start', T2)}\n"
          f"assert implies(0 <= g_star and {MM} <= {T2} - g_star and {T2} - g_star <= {MX} and CG({T2}) == CG(g_star) + {PSc('g_star', T2)}, "
          f"opt_collective_saving == CG({T2}))"),
-        ("before:penalty_sum = *", f"assert forall(range(0, t + 1), lambda v: {BP('v')})"),
+        ("before:saving_too_low = *", f"assert forall(range(0, t + 1), lambda v: {BP('v')})"),
         ("before:starts = starts[keep]", "g_spt0 = start_prune_times\ng_in0 = g_in\ng_pos0 = g_pos\ng_W0 = g_W"),
         ("after:start_prune_times = start_prune_times[keep]",
          "g_W = lam('int', n + 1, lambda s: ite(g_in0[s] and not keep[g_pos0[s]], g_spt0[g_pos0[s]], g_W0[s]))\n"
